@@ -3,7 +3,7 @@
 HEAP_FUNCS = ["opfython.core.heap.Heap." + m for m in
               ("__init__", "is_full", "is_empty", "dad", "left_son", "right_son", "go_up", "go_down",
                "insert", "remove", "update")]
-HEAP_LEMMAS = ["root_best", "pigeonhole", "full_all_gray"]
+HEAP_LEMMAS = ["root_best", "pigeonhole", "full_all_gray", "cost_write"]
 
 COMMON_TRUST = [
     "pyvc (this VC generator: /verif/pyvc) translates the Python AST faithfully for the subset it accepts "
